@@ -60,7 +60,9 @@ impl<F: Fn(u64) -> usize> Iterator for FindChangePoints<F> {
             if new_val != self.prev_value {
                 break;
             }
-            step *= 2;
+            // Stop if there is no larger step: there is no further change
+            // point we can find
+            step = step.checked_mul(2)?;
         }
 
         // Binary search in the last exponential step to find exact change point
